@@ -90,3 +90,12 @@ UNITS.append(Native(
           "braces, format directives) as enumeration literal values, string constants and invariant descriptions, and 11 "
           "reStructuredText descriptions whose rendering is hostile for a docstring or comment; every generated *.py "
           "file must parse with ast.parse.  Python target only", args={}, timeout_s=600))
+
+UNITS.append(Native(
+    "every generated Java file parses (JDK parser); library-free files compile", ["C20"], "native.c20java:bounded",
+    kind="examples",
+    bound="10 meta-models (hostile texts with and without the description containing */, constants of every primitive "
+          "type, a model with inheritance and invariants, methods / constructors with 0, 2, 3 arguments, with and without "
+          "a descendant) through the Java target: every generated *.java file (~470, the generated tests included) is "
+          "parsed with JavacTask.parse(); the files that import neither Jackson nor JUnit are compiled with javac (compile "
+          "errors are recorded in the evidence only: the property says 'parses')", args={}, timeout_s=1500))
